@@ -44,6 +44,7 @@ inductive WillVerdict
 inductive XPkt
   | connackErr (v code : Nat)     -- failing CONNACK (no properties)
   | auth (code : Nat)
+  | closed                        -- the broker closes a connection that never became a client (refused CONNECT)
   deriving Repr, DecidableEq, Inhabited
 
 structure XOut where
@@ -164,10 +165,14 @@ def admitConn (wv : WillVerdict) (bh : BH) (r : ConnectReq) (method : Option Str
 
 def BH.xemit (bh : BH) (conn : String) (p : XPkt) : BH := { bh with xout := bh.xout ++ [{ conn := conn, pkt := p }] }
 
+/-- `sendErrConnack` + `setError`: the failing CONNACK, then writeLoop ends and closes the socket -/
+def refuse (bh : BH) (conn : String) (v code : Nat) : BH :=
+  (bh.xemit conn (.connackErr v (errConnackCode v code))).xemit conn .closed
+
 /-- CONNECT with the verdict of OnBasicAuth (`method = none`) or OnEnhancedAuth (`method = some am`) -/
 def connectH (av : AuthVerdict) (wv : WillVerdict) (bh : BH) (r : ConnectReq) (method : Option String := none) : BH :=
   match av with
-  | .reject code => bh.xemit r.conn (.connackErr r.v (errConnackCode r.v code))
+  | .reject code => refuse bh r.conn r.v code
   | .cont =>
     match method with
     | some am => { bh with pending := (r.conn, r, am) :: bh.pending.filter (·.1 != r.conn) }.xemit r.conn (.auth 24)
@@ -180,10 +185,10 @@ def authContinueH (av : AuthVerdict) (wv : WillVerdict) (bh : BH) (conn : String
   | none => bh
   | some (_, r, am) =>
     if code != 24 then
-      { bh with pending := bh.pending.filter (·.1 != conn) }.xemit conn (.connackErr r.v (errConnackCode r.v 0x82))
+      refuse { bh with pending := bh.pending.filter (·.1 != conn) } conn r.v 0x82
     else
       match av with
-      | .reject c => { bh with pending := bh.pending.filter (·.1 != conn) }.xemit conn (.connackErr r.v (errConnackCode r.v c))
+      | .reject c => refuse { bh with pending := bh.pending.filter (·.1 != conn) } conn r.v c
       | .cont => bh.xemit conn (.auth 24)
       | .accept => admitConn wv bh r (some am)
 
